@@ -20,6 +20,31 @@ CLAIMED = {
             "the inputs on which the current code breaks the budget rule (known findings) or raises; every allocate of a dense generated sweep is re-executed by the model from "
             "the real pre-state (bit-exact) and a monitor checks budget, maximality, close-out, zero and refusal on the real objects.",
             "DESIGN 7 C05"),
+    "C02": ("12 theorems: `total` (cash of every strategy + position*price*multiplier of every security) is changed by a trade only by fee and spread, by adjust exactly by "
+            "the amount, by allocations into sub-strategies (any depth, mutual induction over allocNode/allocKids) only by the costs of the trades they cause; any sequence of "
+            "adjust/allocate/transact changes it by injected capital minus booked costs; an update on a new date moves value by position*(price'-price)*multiplier plus parked "
+            "coupons (whole tree); day-level attribution is `pnl_attribution_partial` (assumes the C01 balance at the observation points; closing update and "
+            "flatten/close/rebalance not covered by the theorem). Steps of generated histories re-executed by the model (C02 footprint); monitor: day-by-day decomposition "
+            "from recorded series on histories and whole generated backtests.",
+            "DESIGN 7 C02"),
+    "C03": ("15 theorems: the written index satisfies price'*(lastValue+netFlows) = lastPrice*value (market value) / the additive form (fixed income), zero base raises, "
+            "first write gives PAR, a flow that is the only event of a date leaves the index unchanged and a non-flow moves it, homogeneity of degree 0 of the write, and the "
+            "recurrence across updNode/updRoot and across a whole day of adjust/allocate/transact between an opening and a closing update; plus a Lean witness that a flow booked "
+            "AFTER same-date P&L does move the index (the recurrence still holds). Step correspondence (C03 footprint); monitors: recurrence on every closed date of histories "
+            "and generated backtests with CapitalFlow, cash-only strategies under random flows, scaled-capital twins.",
+            "DESIGN 7 C03"),
+    "C07": ("15 theorems: transact books exactly q*p*m + half-spread (or custom-price difference) as outlay, commission(q, p*m) as fee, one non-flow adjustment on the security's own "
+            "parent and nothing else (frame), zero quantity is a no-op, adjust books amount/fee/flow and nothing else, probes of the sizing search are pure, accumulators reset exactly "
+            "on a date change, sub-strategy allocation debits the parent as a non-flow and credits the child as a flow, the root's debit and credit cancel, rows of cash/fees/flows "
+            "hold the state after update, deep operations reach no ancestor above the parent, and the per-node ledger of an allocation. Step correspondence (C07 footprint); monitors: "
+            "ledger equation per node and closed date, every executed trade checked from an external trade log.",
+            "DESIGN 7 C07"),
+    "C08": ("23 theorems: secUpdate, updNode (every tree, mutual induction), updRoot (bankruptcy branch included) and refresh are idempotent (under NoDust: is_zero(position) -> "
+            "position = 0; the unrestricted statement is refuted by a Lean witness and replayed on the real code as a known finding), k further updates change nothing, a refreshing "
+            "read equals refresh / is the identity on a fresh world, update writes rows only at the current index (hedge notional rows stay zero), transact writes no row, and every "
+            "public operation (hence every finite sequence) keeps the tree shape and the length of every row list. Whole-snapshot step correspondence; monitors: update-twice twins, "
+            "read-vs-explicit-update twins, past rows compared between consecutive snapshots, no series beyond now.",
+            "DESIGN 7 C08"),
 }
 # pid -> reason it is not claimed (yet)
 NOT_YET = {}
